@@ -83,6 +83,9 @@ class LayoutInterp:
             if nm == "view":
                 v = self.ev(recv)
                 t = src(args[0]) if args else src(kwarg(e, "dtype") or ast.Constant(None))
+                if v.kind in ("rows", "flatbits") and ("int8" in t) and (v.dtype in ("uint8", "int8", None)):
+                    # one-byte 0/1 values re-read as another one-byte type: same values, same places
+                    return Val(v.kind, v.data, v.note, t.split(".")[-1].strip("'\""))
                 if v.kind != "words":
                     raise AnalysisError("layout: view on a non-word value")
                 if "uint8" in t or "int8" in t:
